@@ -154,3 +154,69 @@ mut('c02-inline-without-lock-test', 'C02', ['C02.4'], M,
     "            if not self.event_completed_signal.is_set() and inside_handler_context.get() and holds_global_lock.get():",
     "            if not self.event_completed_signal.is_set() and inside_handler_context.get():",
     'inline loop dequeues without knowing the lock is held')
+
+# ================================================================================================ C03
+mut('c03-no-children-test', 'C03', ['C03.1'], M,
+    "            if not self.event_are_all_children_complete():\n", "            if False and not self.event_are_all_children_complete():\n",
+    'event marked complete without looking at its children')
+mut('c03-any-for-all', 'C03', ['C03.1'], M,
+    "            all_handlers_done = all(result.status in ('completed', 'error') for result in self.event_results.values())",
+    "            all_handlers_done = any(result.status in ('completed', 'error') for result in self.event_results.values())",
+    'any() instead of all()')
+mut('c03-started-terminal', 'C03', ['C03.1'], M,
+    "        all_done = all(result.status in ('completed', 'error') for result in self.event_results.values())",
+    "        all_done = all(result.status in ('completed', 'error', 'started') for result in self.event_results.values())",
+    "sibling predicate in event_completed_at treats 'started' as terminal")
+mut('c03-children-early-true', 'C03', ['C03.1'], M,
+    "        for child_event in self.event_children:\n            if child_event.event_status != 'completed':",
+    "        for child_event in self.event_children[:1]:\n            if child_event.event_status != 'completed':",
+    'only the first child is checked')
+mut('c03-children-no-recursion', 'C03', ['C03.1'], M,
+    "            if not child_event.event_are_all_children_complete(_visited):\n                return False\n", "",
+    'grandchildren are not checked')
+mut('c03-children-return-true-in-loop', 'C03', ['C03.1'], M,
+    "            if not child_event.event_are_all_children_complete(_visited):\n                return False\n",
+    "            if not child_event.event_are_all_children_complete(_visited):\n                return False\n            return True\n",
+    'returns after the first child')
+mut('c03-second-set-site', 'C03', ['C03.1'], S,
+    "            # Record successful result\n            event.event_result_update(handler=handler, eventbus=self, result=result_value)\n",
+    "            # Record successful result\n            event.event_result_update(handler=handler, eventbus=self, result=result_value)\n            if event.event_completed_signal and len(event.event_results) == 1:\n                event.event_completed_signal.set()\n",
+    'a second .set() site in execute_handler')
+mut('c03-clear-signal', 'C03', ['C03.1'], S,
+    "        # Add this EventBus to the event_path if not already there\n",
+    "        if event.event_completed_signal and self.name not in event.event_path:\n            event.event_completed_signal.clear()\n        # Add this EventBus to the event_path if not already there\n",
+    'dispatch clears the completion signal')
+mut('c03-children-skip-results', 'C03', ['C03.1'], M,
+    "        for event_result in self.event_results.values():\n            children.extend(event_result.event_children)\n        return children",
+    "        for event_result in self.event_results.values():\n            if event_result.status != 'error':\n                children.extend(event_result.event_children)\n        return children",
+    'children of errored handlers are ignored')
+mut('c03-await-raises-error', 'C03', ['C03.2'], M,
+    "            # Return the completed event without raising errors\n",
+    "            for result in self.event_results.values():\n                if result.error:\n                    raise result.error\n            # Return the completed event without raising errors\n",
+    'await raises the first handler error')
+mut('c03-await-returns-copy', 'C03', ['C03.2'], M,
+    "            # Errors should only be raised when explicitly requested via event_result() methods\n            return self\n",
+    "            # Errors should only be raised when explicitly requested via event_result() methods\n            return self.model_copy()\n",
+    'await yields a copy')
+mut('c03-await-no-wait', 'C03', ['C03.2'], M,
+    "                await self.event_completed_signal.wait()\n", "                await asyncio.sleep(0)\n",
+    'non-handler await does not wait for the signal')
+mut('c03-no-mark-own', 'C03', ['C03.3'], S,
+    "        # Mark event as complete if all handlers are done\n        event.event_mark_complete_if_all_handlers_completed()\n",
+    "        # Mark event as complete if all handlers are done\n        if event.event_results:\n            event.event_mark_complete_if_all_handlers_completed()\n",
+    'events without results are never marked')
+mut('c03-skip-parent-walk', 'C03', ['C03.3'], S,
+    "        while current.event_parent_id and current.event_parent_id not in checked_ids:",
+    "        while False and current.event_parent_id and current.event_parent_id not in checked_ids:",
+    'parent chain never walked')
+mut('c03-walk-no-advance', 'C03', ['C03.3'], S,
+    "            # Move up the chain\n            current = parent_event\n", "            # Move up the chain\n            break\n",
+    'only the direct parent is re-checked')
+mut('c03-walk-skip-mark', 'C03', ['C03.3'], S,
+    "            if parent_event.event_completed_signal and not parent_event.event_completed_signal.is_set():\n                parent_event.event_mark_complete_if_all_handlers_completed()\n",
+    "            if parent_event.event_completed_signal and not parent_event.event_completed_signal.is_set() and parent_event.event_path[0] == self.name:\n                parent_event.event_mark_complete_if_all_handlers_completed()\n",
+    'ancestors that started on another bus are not marked')
+mut('c03-new-raise-before-mark', 'C03', ['C03.4'], S,
+    "        # Execute handlers\n        await self._execute_handlers(event, handlers=applicable_handlers, timeout=timeout)\n",
+    "        if len(applicable_handlers) > 64:\n            raise ValueError('too many handlers')\n        # Execute handlers\n        await self._execute_handlers(event, handlers=applicable_handlers, timeout=timeout)\n",
+    'a new explicit raise escapes process_event before the event is marked (must be a new key)')
